@@ -52,10 +52,13 @@ pub fn ring_oracle(id: u64) -> Option<RingOracle> {
     let fine = ring_ll(id, 32, false)?;
     let ring: Vec<P> = fine.iter().map(|&l| p_of(l)).collect();
     let n = ring.len();
-    // sagitta at half the subdivision: distance of each odd point from the chord of its even neighbours
+    // sagitta: distance of every non-corner ring point from the chord of its two neighbours (a chord spanning two
+    // segments, i.e. about four times the sagitta of the ring's own segments: a conservative allowance).
+    // cell_to_boundary reverses the ring, so original index = n-1-i and corners sit where that is a multiple of 32
     let mut sag: f64 = 0.0;
-    for i in (1..n).step_by(2) {
-        let (a, m, b) = (ring[i - 1], ring[i], ring[(i + 1) % n]);
+    for i in 0..n {
+        if (n - 1 - i) % 32 == 0 { continue; }
+        let (a, m, b) = (ring[(i + n - 1) % n], ring[i], ring[(i + 1) % n]);
         let (ax, ay) = tangent(m, a);
         let (bx, by) = tangent(m, b);
         let len = ((bx - ax).powi(2) + (by - ay).powi(2)).sqrt();
@@ -529,6 +532,71 @@ fn scenario_points(rng: &mut Rng, res: i32, loc: &str, specials: &[LonLat]) -> V
     }
 }
 
+/// Hook-guided mass probing (shared by C01 and C02): very many cheap lookups of edge-hugging points at res 8..29; the
+/// winning probe index reported by the branch hook is the fitness.  Returns the hard cases
+/// (probe index, res, lon, lat, source cell, signed relative depth), hardest first, plus the histogram.
+pub fn mass_probe(tier: &str, seed: u64) -> (Vec<(u8, i32, f64, f64, u64, f64)>, Vec<u64>, u64) {
+    let nmass: u64 = if tier == "thorough" { 12_000_000 } else { 1_200_000 };
+    let nthreads = 12u64;
+    let mut handles = vec![];
+    for th in 0..nthreads {
+        let mut r2 = Rng::new(seed ^ 0xC01 ^ (th + 1) * 0x9E37);
+        let quota = nmass / nthreads;
+        handles.push(std::thread::spawn(move || {
+            let mut hard: Vec<(u8, i32, f64, f64, u64, f64)> = vec![];
+            let mut hist = [0u64; 28];
+            let mut done = 0u64;
+            while done < quota {
+                let res = 8 + r2.below(22) as i32;
+                let base = random_point(&mut r2);
+                let cell = match a5::lonlat_to_cell(base, res) { Ok(c) => c, Err(_) => continue };
+                let ring = match ring_ll(cell, 1, false) { Some(r) if r.len() >= 3 => r, _ => continue };
+                let centre = match a5::cell_to_lonlat(cell) { Ok(c) => c, Err(_) => continue };
+                for q in 0..48 {
+                    let i = r2.below(ring.len() as u64) as usize;
+                    // along the edges, and (every third probe) right next to a corner
+                    let e = if q % 3 == 0 { ring[i] } else { towards(ring[i], ring[(i + 1) % ring.len()], r2.f64()) };
+                    let depth = [1e-3, 1e-2, 0.05, 0.2, -1e-3, -1e-2, -0.05, 0.6, 0.03, 0.1][r2.below(10) as usize];
+                    let p = towards(e, centre, depth);
+                    if a5::lonlat_to_cell(p, res).is_err() { continue; }
+                    let info = a5::verif::lookup_info();
+                    let key = if info.branch == 4 { 27 } else { info.sample.min(26) };
+                    hist[key as usize] += 1;
+                    if key >= 9 { hard.push((key, res, p.longitude(), p.latitude(), cell, depth)); }
+                    done += 1;
+                }
+            }
+            (hard, hist, done)
+        }));
+    }
+    let mut hard_all: Vec<(u8, i32, f64, f64, u64, f64)> = vec![];
+    let mut hist_all = [0u64; 28];
+    let mut n_mass = 0u64;
+    for h in handles { let (hd, hs, d) = h.join().unwrap(); hard_all.extend(hd); for k in 0..28 { hist_all[k] += hs[k]; } n_mass += d; }
+    hard_all.sort_by(|a, b| b.0.cmp(&a.0));
+    // second stage: hard points cluster in slivers -- explore the neighbourhood of the hardest ones for still later
+    // probes / fallbacks (local search on the hook's probe index)
+    let seeds_pts: Vec<(u8, i32, f64, f64, u64, f64)> = hard_all.iter().take(if tier == "thorough" { 3000 } else { 400 }).cloned().collect();
+    let mut r3 = Rng::new(seed ^ 0x5EED);
+    for (k0, res, lon, lat, _cell, _d) in seeds_pts {
+        let sz = cell_size(res) / DEG;
+        let coslat = (lat * DEG).cos().max(1e-3);
+        let (mut best, mut bl, mut bt) = (k0, lon, lat);
+        for step in 0..120 {
+            let scale = sz * [0.3, 0.1, 0.03, 0.01][step % 4];
+            let (l2, t2) = (bl + (r3.f64() - 0.5) * scale / coslat, (bt + (r3.f64() - 0.5) * scale).clamp(-90.0, 90.0));
+            if a5::lonlat_to_cell(LonLat::new(l2, t2), res).is_err() { continue; }
+            let info = a5::verif::lookup_info();
+            let key = if info.branch == 4 { 27 } else { info.sample.min(26) };
+            n_mass += 1;
+            hist_all[key as usize] += 1;
+            if key >= best { if key > best || step % 3 == 0 { best = key; bl = l2; bt = t2; } hard_all.push((key, res, l2, t2, 0, 0.0)); }
+        }
+    }
+    hard_all.sort_by(|a, b| b.0.cmp(&a.0));
+    (hard_all, hist_all.to_vec(), n_mass)
+}
+
 pub fn gen_c01(tier: &str, seed: u64, out: &str, mc: Option<&str>) -> Value {
     let mut rng = Rng::new(seed ^ 0xC01);
     let mut t = Trace::new(out, "c01", 500);
@@ -560,71 +628,12 @@ pub fn gen_c01(tier: &str, seed: u64, out: &str, mc: Option<&str>) -> Value {
         n_hug += interior_events(&mut t, "interior1", id, &mut rng, &[1e-13, 1e-10, 1e-7, 1e-4, 1e-2, 0.3]);
         t.cut();
     }
-    // mass probing guided by the branch hook: very many cheap lookups of edge-hugging and uniform points at res 8..29;
-    // only the HARD ones (answered by a late probe of the spiral, or by the fallback) are classified and recorded --
+    // mass probing guided by the branch hook (see mass_probe): only the HARD lookups are classified and recorded --
     // exactly the cases on which the search's only assumption (A5Lookup: the true cell is among the estimates) is thin
-    let nmass: u64 = if tier == "thorough" { 12_000_000 } else { 1_200_000 };
-    let nthreads = 12u64;
-    let mut handles = vec![];
-    for th in 0..nthreads {
-        let mut r2 = Rng::new(seed ^ 0xC01 ^ (th + 1) * 0x9E37);
-        let quota = nmass / nthreads;
-        handles.push(std::thread::spawn(move || {
-            let mut hard: Vec<(u8, i32, f64, f64)> = vec![];
-            let mut hist = [0u64; 28];
-            let mut done = 0u64;
-            while done < quota {
-                let res = 8 + r2.below(22) as i32;
-                let base = random_point(&mut r2);
-                let cell = match a5::lonlat_to_cell(base, res) { Ok(c) => c, Err(_) => continue };
-                let ring = match ring_ll(cell, 1, false) { Some(r) if r.len() >= 3 => r, _ => continue };
-                let centre = match a5::cell_to_lonlat(cell) { Ok(c) => c, Err(_) => continue };
-                for _ in 0..48 {
-                    let i = r2.below(ring.len() as u64) as usize;
-                    let e = towards(ring[i], ring[(i + 1) % ring.len()], r2.f64());
-                    let depth = [1e-3, 1e-2, 0.05, 0.2, -1e-3, -1e-2, -0.05, 0.6][r2.below(8) as usize];
-                    let p = towards(e, centre, depth);
-                    if a5::lonlat_to_cell(p, res).is_err() { continue; }
-                    let info = a5::verif::lookup_info();
-                    let key = if info.branch == 4 { 27 } else { info.sample.min(26) };
-                    hist[key as usize] += 1;
-                    if key >= 9 { hard.push((key, res, p.longitude(), p.latitude())); }
-                    done += 1;
-                }
-            }
-            (hard, hist, done)
-        }));
-    }
-    let mut hard_all: Vec<(u8, i32, f64, f64)> = vec![];
-    let mut hist_all = [0u64; 28];
-    let mut n_mass = 0u64;
-    for h in handles { let (hd, hs, d) = h.join().unwrap(); hard_all.extend(hd); for k in 0..28 { hist_all[k] += hs[k]; } n_mass += d; }
-    hard_all.sort_by(|a, b| b.0.cmp(&a.0));
-    // second stage: hard points cluster in slivers -- explore the neighbourhood of the hardest ones for still later
-    // probes / fallbacks (local search on the hook's probe index)
-    let seeds_pts: Vec<(u8, i32, f64, f64)> = hard_all.iter().take(if tier == "thorough" { 3000 } else { 400 }).cloned().collect();
-    let mut r3 = Rng::new(seed ^ 0x5EED);
-    let mut n_refine = 0u64;
-    for (k0, res, lon, lat) in seeds_pts {
-        let sz = cell_size(res) / DEG;
-        let coslat = (lat * DEG).cos().max(1e-3);
-        let (mut best, mut bl, mut bt) = (k0, lon, lat);
-        for step in 0..120 {
-            let scale = sz * [0.3, 0.1, 0.03, 0.01][step % 4];
-            let (l2, t2) = (bl + (r3.f64() - 0.5) * scale / coslat, (bt + (r3.f64() - 0.5) * scale).clamp(-90.0, 90.0));
-            if a5::lonlat_to_cell(LonLat::new(l2, t2), res).is_err() { continue; }
-            let info = a5::verif::lookup_info();
-            let key = if info.branch == 4 { 27 } else { info.sample.min(26) };
-            n_refine += 1;
-            hist_all[key as usize] += 1;
-            if key >= best { if key > best || step % 3 == 0 { best = key; bl = l2; bt = t2; } hard_all.push((key, res, l2, t2)); }
-        }
-    }
-    n_mass += n_refine;
-    hard_all.sort_by(|a, b| b.0.cmp(&a.0));
+    let (mut hard_all, hist_all, n_mass) = mass_probe(tier, seed);
     let n_hard_total = hard_all.len();
     hard_all.truncate(if tier == "thorough" { 40000 } else { 5000 });
-    for (_, res, lon, lat) in &hard_all {
+    for (_, res, lon, lat, _, _) in &hard_all {
         let e = lookup_event(LonLat::new(*lon, *lat), *res, "mass_hard");
         branches[(e["branch"].as_u64().unwrap_or(0) as usize).min(4)] += 1;
         t.emit(e);
@@ -634,7 +643,7 @@ pub fn gen_c01(tier: &str, seed: u64, out: &str, mc: Option<&str>) -> Value {
     t.finish();
     json!({"files": t.files, "events": t.events, "lookups": n, "edge_hugging_points": n_hug, "branches_exact_direct_probe_fallback": branches[1..].to_vec(),
            "mass_lookups": n_mass, "mass_hard_cases_found": n_hard_total, "mass_hard_cases_validated": hard_all.len(),
-           "mass_winning_probe_histogram_0_26_fallback": hist_all.to_vec(),
+           "mass_winning_probe_histogram_0_26_fallback": hist_all,
            "samples": [lookup_event(LonLat::new(-73.98, 40.75), 11, "sample")]})
 }
 
@@ -659,8 +668,26 @@ pub fn gen_c02(tier: &str, seed: u64, out: &str) -> Value {
         t.cut();
     }
     for r in 0..=exr { for _ in 0..(if tier == "thorough" { 60 } else { 8 }) { let id = random_cell(&mut rng, r); n_i += interior_events(&mut t, "interior2", id, &mut rng, &[1e-10, 1e-4, 1e-2, 0.5]); t.cut(); } }
+    // hook-guided hard cases: interior points of a known cell whose lookup needed a late probe or fell back
+    let (hard, _hist, n_mass) = mass_probe(tier, seed ^ 0x2);
+    let mut n_hard = 0u64;
+    for (_, res, lon, lat, cell, depth) in hard.iter().filter(|h| h.4 != 0 && h.5 > 0.0).take(if tier == "thorough" { 30000 } else { 4000 }) {
+        let p = LonLat::new(*lon, *lat);
+        if let (Ok(cd), Some(o)) = (deserialize(*cell), ring_oracle(*cell)) {
+            let (class, pm, rm) = classify(*cell, &cd, p, &o);
+            let back = catch(|| a5::lonlat_to_cell(p, *res)).ok().and_then(|x| x.ok());
+            let info = a5::verif::lookup_info();
+            t.emit(json!({"op": "interior2", "id": quads(*cell), "res": res, "p": fmt_ll(p), "corner": false, "depth": format!("{:e}", depth),
+                          "class": class, "planar_e15": q15(pm), "ring_e15": q15(rm), "ok": back.is_some(), "back": quads(back.unwrap_or(0)),
+                          "back_class": "n/a", "back_planar_e15": 0, "back_ring_e15": 0, "branch": info.branch, "abslat": lat.abs().floor() as i64}));
+            n_hard += 1;
+            n_i += 1;
+            t.cut();
+        }
+    }
+    let _ = n_mass;
     t.finish();
-    json!({"files": t.files, "events": t.events, "centres": n_c, "interior_points": n_i, "exhaustive_to_res": exr, "samples": [centre_event(random_cell(&mut rng, 13))]})
+    json!({"files": t.files, "events": t.events, "centres": n_c, "interior_points": n_i, "hook_guided_hard_interior_points": n_hard, "exhaustive_to_res": exr, "samples": [centre_event(random_cell(&mut rng, 13))]})
 }
 
 #[allow(dead_code)]
